@@ -326,3 +326,13 @@ def run(facts, rep, ctx):
     from . import c04
     c04.run(facts, rep, ctx)
 
+
+
+_run_before_round5 = run
+
+
+def run(facts, rep, ctx):
+    """rules added after the fourth seeding round (rules/round5.py)"""
+    _run_before_round5(facts, rep, ctx)
+    from . import round5
+    round5.ls1(facts, rep)
